@@ -171,7 +171,28 @@ fn corpus() -> Vec<Case> {
     let mk = |rules: Vec<RuleSpec>, data: &[u8], stream| Case { rules, data: data.to_vec(), globals: g0.clone(), compile_globals: g0.clone(), per_rule: true, stream };
     let r = |ns, global, private, pats: Vec<&[u8]>, cond| RuleSpec { ns, global, private, pats: pats.into_iter().map(|p| p.to_vec()).collect(), cond };
     let undef = || E::Read(IntKind { bytes: 1, signed: false, be: false }, bx(E::Arith(Op::Add, bx(E::Filesize), bx(E::Int(5)))));
+    // run-time shift counts around the `< 64` guard of emit_shift_op!, for both shifts and
+    // the extreme left operands: each rule states the value 64-bit arithmetic gives
+    let mut shift_rules = vec![];
+    {
+        let data_len = 3i64;
+        let rt = |c: i64| -> E {
+            let base = E::Arith(Op::Sub, bx(E::Filesize), bx(E::Int(data_len)));
+            if c == 0 { base } else if c == i64::MIN { E::Arith(Op::Sub, bx(E::Arith(Op::Sub, bx(base), bx(E::Int(i64::MAX)))), bx(E::Int(1))) }
+            else if c > 0 { E::Arith(Op::Add, bx(base), bx(E::Int(c))) } else { E::Arith(Op::Sub, bx(base), bx(E::Int(-c))) }
+        };
+        for op in [Op::Shl, Op::Shr] {
+            for lhs in [1i64, -1, i64::MIN, i64::MAX] {
+                for c in SHIFT_COUNTS {
+                    let expected = arith_i64(op, lhs, c).unwrap();
+                    let l = if lhs == i64::MIN { rt(lhs) } else { E::Int(lhs) };
+                    shift_rules.push(r(0, false, false, vec![], E::Cmp(Cmp::Eq, bx(E::Arith(op, bx(l), bx(rt(c)))), bx(rt(expected)))));
+                }
+            }
+        }
+    }
     vec![
+        mk(shift_rules, b"abc", Stream::Main),
         // finding 10 (repaired by 8b83ae6a): regression cases
         mk(vec![r(0, false, false, vec![], E::Cmp(Cmp::Eq, bx(E::Arith(Op::Add, bx(E::Int(9007199254740993)), bx(E::Int(1)))), bx(E::Int(9007199254740994))))], b"abc", Stream::Fold),
         mk(vec![r(0, false, false, vec![], E::Cmp(Cmp::Eq, bx(E::Arith(Op::Mul, bx(E::Int(9007199254740993)), bx(E::Int(3)))), bx(E::Int(27021597764222979))))], b"abc", Stream::Fold),
